@@ -155,10 +155,11 @@ def loadLine (off : Nat) (st : LdSt) (line : List Char) : LdSt :=
   | none => st
   | some (addr, size, ty, name) => loadFields off st addr size ty name
 
-/-- `getline`: split at '\n'; a last piece without newline is a line if non-empty -/
+/-- `getline` + `if (strchr(line, '\n') == NULL) break;`: split at '\n'; a last piece without its
+    newline is an incomplete record (cut file) and is not read — neither by
+    `load_module_symbol_file` nor by `check_symbol_file` -/
 def splitLinesAux : List Char → List Char → List (List Char)
-  | [], [] => []
-  | [], cur => [cur.reverse]
+  | [], _ => []
   | c :: r, cur => if c = '\n' then cur.reverse :: splitLinesAux r [] else splitLinesAux r (c :: cur)
 
 def splitLines (text : List Char) : List (List Char) := splitLinesAux text []
